@@ -97,7 +97,7 @@ impl Datagrams {
 //@fn iroh-relay/src/protos/relay.rs Datagrams::encoded_len props=C05 ret=r
 //@| requires self.contents@.len() <= 0x1000_0000
 //@| ensures r == dg_wire_len(*self)
-//@rw R1 1
+//@rw R1 *
 //@- .map_or(0, |_| 2)
 //@+ .map_or(0, |_w: NonZeroU16| -> (o: usize) ensures o == 2 { 2 })
 //@end
